@@ -68,8 +68,19 @@ func renderRun(j renderJob, shades [][]int) *trace.Scenario {
 		}
 		// up to 10 objects, ordered by X in OAM, anywhere including partly off every edge; the rest hidden
 		nobj := rng.Intn(11)
+		// every third scene is a crowd: ten objects within a few pixels of each other, so that at most pixels of the
+		// area several objects compete, transparent and opaque ones, with either palette, flipped or not
+		crowd := rng.Intn(3) == 0
+		crowdX := 8 + rng.Intn(150)
+		if crowd {
+			nobj = 10
+		}
 		xs := make([]int, nobj)
 		for i := range xs {
+			if crowd {
+				xs[i] = crowdX + rng.Intn(10)
+				continue
+			}
 			switch rng.Intn(5) {
 			case 0:
 				xs[i] = 1 + rng.Intn(8) // partly off the left edge
@@ -86,15 +97,19 @@ func renderRun(j renderJob, shades [][]int) *trace.Scenario {
 			y, x, t, a := 0, 0, rng.Intn(256), rng.Intn(256)
 			if i < nobj {
 				x = xs[i]
-				switch rng.Intn(6) {
-				case 0:
-					y = 9 + rng.Intn(7) // partly off the top edge
-				case 1:
-					y = 145 + rng.Intn(15) // partly off the bottom edge
-				case 2, 3:
-					y = baseY + rng.Intn(12) - 6
-				default:
-					y = 9 + rng.Intn(151)
+				if crowd {
+					y = baseY + rng.Intn(8) - 4
+				} else {
+					switch rng.Intn(6) {
+					case 0:
+						y = 9 + rng.Intn(7) // partly off the top edge
+					case 1:
+						y = 145 + rng.Intn(15) // partly off the bottom edge
+					case 2, 3:
+						y = baseY + rng.Intn(12) - 6
+					default:
+						y = 9 + rng.Intn(151)
+					}
 				}
 			} else if rng.Intn(2) == 0 {
 				y = 160 + rng.Intn(96) // hidden below the screen
